@@ -112,9 +112,9 @@ CONTENT_VARIANTS = {
         # every other option a preamble takes
         ('codec-lookalike', {'encoding': 'utf\u201116', 'line_endings':
                              'dos', 'mimetype': 'text/markdown',
-                             'text': 'a\r\nb\r\n'}, MAY),
+                             'text': 'a\r\nb\r\n'}, REJECT),
         ('codec-lookalike-8', {'encoding': 'UTF\u00ad8', 'indent': 2,
-                               'line_endings': 'unix'}, MAY),
+                               'line_endings': 'unix'}, REJECT),
     ],
     'write_meta': [
         ('meta-list', {'metadata': [1, 2]}, REJECT),
@@ -135,7 +135,7 @@ CONTENT_VARIANTS = {
         ('meta-unserialisable', {'metadata': {'x': {'$object': 1}}}, MAY),
         ('meta-tuple-key', {'metadata': {'x': {'$set': [1]}}}, MAY),
         ('codec-empty', {'encoding': ''}, MAY),
-        ('codec-lookalike', {'encoding': 'utf\u20118'}, MAY),
+        ('codec-lookalike', {'encoding': 'utf\u20118'}, REJECT),
     ],
     'write_diff': [
         ('diff-str', {'content': 'abc'}, REJECT),
@@ -160,7 +160,7 @@ CONTENT_VARIANTS = {
         ('codec-unknown-le', {'encoding': 'nope-8', 'line_endings': 'unix'},
          MAY),
         ('codec-lookalike', {'encoding': 'latin\u20111', 'line_endings':
-                             'dos', 'diff_type': 'binary'}, MAY),
+                             'dos', 'diff_type': 'binary'}, REJECT),
     ],
 }
 CONTAINER_VARIANTS = [
@@ -168,8 +168,10 @@ CONTAINER_VARIANTS = [
     ('codec-empty', {'encoding': ''}, MAY),
     ('codec-int', {'encoding': 5}, MAY),
     ('codec-space', {'encoding': 'a b'}, MAY),
-    ('codec-nonascii', {'encoding': 'é'}, MAY),
-    ('codec-nonascii2', {'encoding': 'utf-8é'}, MAY),
+    ('codec-nonascii', {'encoding': 'é'}, REJECT),
+    ('codec-nonascii2', {'encoding': 'utf-8é'}, REJECT),
+    ('codec-nonascii3', {'encoding': 'latin-1-\u00e9'}, REJECT),
+    ('codec-nonascii4', {'encoding': 'utf\u20118'}, REJECT),
     ('codec-bytes', {'encoding': {'$bytes': '7574662d38'}}, MAY),
 ]
 
@@ -345,6 +347,11 @@ class Model(object):
         from dsim.actors import pyval
         name = op['op']
         enc = pyval(op.get('encoding')) if 'encoding' in op else None
+
+        if isinstance(enc, str) and not enc.isascii():
+            # a name that has no representation in the (ASCII) header line:
+            # unencodable text
+            return REJECT
 
         if name in ('new_change', 'new_file'):
             if enc is None:
